@@ -124,6 +124,125 @@ def token_mutations(rng, text, n):
     return out
 
 
+# ---- the info-box of a reaction line: [type = rate +/- error units], every part present / absent / odd ----
+def infobox_variants(rtype, rng=None):
+    """every combination of (type: the declared one / unknown / absent) x (rate: present / absent) x
+    (error estimate: present / absent) x (units: usual / absent / unusual); with rng the spellings vary"""
+    pick = (lambda xs: rng.choice(xs)) if rng else (lambda xs: xs[0])
+    out = []
+    for ty in (rtype, "strange", None):
+        for rate in (pick(["5", "1.5e6", "0", "2.5e-3"]), None):
+            for err in (None, pick(["20", "inf", "0.5"])):
+                for units in (pick(["/M/s", "/s", "/nM/h"]), None, pick(["/nM/nM/h", "/M/M/M/h", "/pM/uM/m"])):
+                    parts = ([f"{ty} ="] if ty else []) + ([rate] if rate else []) + ([f"+/- {err}"] if err else []) + \
+                            ([units] if units else [])
+                    out.append({"type": ty, "rate": rate, "err": err, "units": units, "box": "[" + " ".join(parts) + "]"})
+    return out
+
+
+def infobox_cases(rng, S, base, n):
+    """n random info-box variants appended to a valid document (reactants/products of a declared reaction, or
+    any two declared complexes)"""
+    out = []
+    def doc(lines):
+        return "\n".join(lines) + "\n"
+    if S.reactions:
+        re_, pr_, rt = rng.choice(S.reactions)[:3]
+    elif S.complexes:
+        cn = list(S.complexes)
+        re_, pr_, rt = [rng.choice(cn)], [rng.choice(cn)], "open"
+    else:
+        return out
+    lhs = " + ".join(re_) + " -> " + " + ".join(pr_)
+    for v in rng.sample(infobox_variants(rt, rng), n):
+        kw = rng.choice(["reaction", "kinetic"])
+        kind = "infobox-" + "-".join(("type" if v["type"] == rt else "unknowntype" if v["type"] else "notype",
+                                      "rate" if v["rate"] else "norate", "error" if v["err"] else "noerror",
+                                      "units" if v["units"] else "nounits"))
+        c = {"kind": kind, "text": doc(base + [f"{kw} {v['box']} {lhs}"])}
+        if v["rate"] and v["units"] and v["type"] != rt:
+            # well-formed box of a reaction that is announced as ignored (no type / unknown type): survived, nothing added
+            c["must_read"] = True
+            c["expect_reactions"] = len(S.reactions)
+        out.append(c)
+    return out
+
+
+# ---- the `ignore` argument of read_pil: a collection of statement kinds, in every container form ----
+STATEMENT_KINDS = ["dl-domain", "sl-domain", "composite-domain", "strand-complex", "kernel-complex", "resting-macrostate",
+                   "reaction"]
+IGNORE_FORMS = ["list", "tuple", "set", "frozenset", "dict"]
+
+
+def ignore_readable(S, items):
+    """the remaining statements of a valid document are still a consistent system: only reactions and/or macrostates are
+    skipped, and no remaining (condensed) reaction needs a skipped macrostate"""
+    ig = set(items) & set(STATEMENT_KINDS)
+    if not ig <= {"reaction", "resting-macrostate"}:
+        return False
+    if "resting-macrostate" in ig and "reaction" not in ig and any(r[2] == "condensed" for r in S.reactions):
+        return False
+    return True
+
+
+def ignore_cases(rng, S, base, n):
+    """the valid document (and the document plus a reaction line of the ignored kinds) read with `ignore` given as a
+    list / tuple / set / frozenset / dict of statement kinds and strings that are no statement kind"""
+    out = []
+    def doc(lines):
+        return "\n".join(lines) + "\n"
+    cn = list(S.complexes)
+    for _ in range(n):
+        form = rng.choice(IGNORE_FORMS)
+        pool = STATEMENT_KINDS + ["reaction", "resting-macrostate", "no-such-kind", "", "Reaction"]
+        items = [rng.choice(pool) for _ in range(rng.randrange(0, 4))]
+        lines, extra = list(base), rng.random()
+        if cn and extra < 0.5:
+            a, b = rng.choice(cn), rng.choice(cn)
+            lines.append(rng.choice([f"reaction {a} -> {b}", f"kinetic [strange = 5 /s] {a} + {b} -> {b}",
+                                     f"reaction [7 /M/s] {a} + {a} -> {b}"]))
+        c = {"kind": "ignore-" + form + ("-plus-ignored-reaction" if len(lines) > len(base) else ""),
+             "text": doc(lines), "ignore": {"form": form, "items": items}}
+        if ignore_readable(S, items):
+            c["must_read"] = True
+            c["expect_reactions"] = 0 if "reaction" in items else len(S.reactions)
+        out.append(c)
+    return out
+
+
+def ignore_source(ig):
+    """Python source of the `ignore` argument of a case (for the snippet of a failing input)"""
+    if not ig:
+        return ""
+    items = repr(list(ig["items"]))
+    return ", ignore = " + {"list": items, "tuple": f"tuple({items})", "set": f"set({items})", "frozenset": f"frozenset({items})",
+                            "dict": f"dict.fromkeys({items}, True)"}[ig["form"]]
+
+
+def small_scope_documents():
+    """exhaustive over the small scope: one tiny system; every info-box variant; every container form of `ignore` with
+    single statement kinds and a string that is no kind"""
+    base = ["length a = 6", "length b = 6", "sequence c = ACGT", "strand s = a b", "A = a b", "B = b* a*", "AB = a( b( + ) )",
+            "structure SA = s + s : ..+..", "state A = [A]", "state B = [B]", "state AB = [AB]"]
+    rx = ["reaction [bind21 = 1.5e6 /M/s] A + B -> AB", "reaction [condensed = 2 /M/s] A + B -> AB", "reaction AB -> A + B"]
+    out = []
+    for v in infobox_variants("bind21"):
+        c = {"kind": "infobox-small-scope", "text": "\n".join(base + [f"reaction {v['box']} A + B -> AB"]) + "\n"}
+        if v["rate"] and v["units"]:
+            c["must_read"] = True
+            c["expect_reactions"] = 1 if v["type"] == "bind21" else 0
+        out.append(c)
+    for n, form in enumerate(IGNORE_FORMS):
+        # (every other kind is met with some form here and with random forms in ignore_cases)
+        for items in [["reaction"], ["resting-macrostate"], ["no-such-kind"], [STATEMENT_KINDS[n]]]:
+            c = {"kind": "ignore-small-scope", "text": "\n".join(base + rx) + "\n", "ignore": {"form": form, "items": items}}
+            if items in (["reaction"], ["no-such-kind"]):
+                c["must_read"] = True
+                c["expect_reactions"] = 0 if "reaction" in items else 2
+            out.append(c)
+    return out
+
+
 FIXED_DOCUMENTS = [
     ("huge-length", "length a = 99999999999999999999999\nX = a( a* )\n"),
     ("zero-length-only", "length z = 0\n"),
@@ -163,8 +282,10 @@ def run(ctx):
     # fault streams (support for the witness search; run on every run)
     cases, kinds = [], {}
     n_sys = 60 if quick else 1200
+    systems = []
     for _ in range(n_sys):
         S = gen_pil.make_system(rng)
+        systems.append(S)
         valid = gen_pil.render(S)
         prelude = valid if rng.random() < 0.3 else None
         # the valid document itself, in a random layout (keyword aliases, optional explicit lengths, comments)
@@ -189,18 +310,36 @@ def run(ctx):
     for kind, text in FIXED_DOCUMENTS:
         kinds[kind] = kinds.get(kind, 0) + 1
         cases.append({"kind": kind, "text": text})
+    # argument forms and partial statements (drawn after the streams above, which therefore stay what they were):
+    # the info-box of a reaction with every part present / absent / odd, and `ignore` in every container form
+    for c in small_scope_documents():
+        kinds[c["kind"]] = kinds.get(c["kind"], 0) + 1
+        cases.append(c)
+    for S in systems:
+        base = [gen_pil.render_stmt(S, it) for it in S.order]
+        for c in infobox_cases(rng, S, base, 1 if quick else 3) + ignore_cases(rng, S, base, 1 if quick else 3):
+            kinds[c["kind"]] = kinds.get(c["kind"], 0) + 1
+            cases.append(c)
     out = run_oracle("c16.py", {"cases": cases})
     ctx.cov["fault_stream"] = {"documents": len(cases), "by_kind": kinds, "failures": len(out["failures"])}
-    ctx.add_eval(len(cases), len({c["text"] for c in cases}), samples=[cases[0], cases[-1]])
+    ctx.add_eval(len(cases), len({c["text"] + "\0" + json.dumps(c.get("ignore")) for c in cases}), samples=[cases[0], cases[-1]])
     ctx.cov["rule"] = ("static: every LOAD_GLOBAL / module-level LOAD_NAME of every code object of the package (theorem over the "
                        "regenerated table); dynamic: single-fault corruptions of generated valid documents at random positions "
-                       "and token-level multi-fault mutations, run against the implementation; non-trivial = distinct documents")
+                       "and token-level multi-fault mutations, reaction info-boxes with every part present / absent / odd, and "
+                       "`ignore` given as list / tuple / set / frozenset / dict, run against the implementation; "
+                       "non-trivial = distinct documents")
     ctx.cov["partial"] = ["reader_declared_only_full: the model-level outcome kinds OutOfFuel / BadRequest / Unmodelled are not "
                           "excluded by a theorem (they never occurred in any correspondence run)"]
-    found = []
-    for f in out["failures"][:10]:
+    found, seen_keys = [], set()
+    for f in out["failures"]:
+        # one witness per (kind of document, kind of failure), at most 10
+        k = (f["case"]["kind"], f["what"].split(":")[0])
+        if k in seen_keys or len(found) >= 10:
+            continue
+        seen_keys.add(k)
         found.append({"key": {"kind": f["case"]["kind"], "what": f["what"].split(":")[0]}, "input": f["case"], "what": f["what"],
-                      "snippet": "from dsdobjects.objectio import *; set_io_objects(); read_pil(" + repr(f["case"]["text"]) + ")"})
+                      "snippet": "from dsdobjects.objectio import *; set_io_objects(); read_pil(" + repr(f["case"]["text"]) +
+                                 ignore_source(f["case"].get("ignore")) + ")"})
 
     def search(_):
         s = list(found)
